@@ -326,7 +326,7 @@ def run(tier, seed):
     for _ in range(2500 * scale):
         rows, quoted, text, style = gen_conformant(rng)
         conf.append((rows, quoted, text))
-        add("rfc4180/" + style, text, ("conf", len(conf) - 1))
+        add("rfc4180/" + style, text, ("conf", len(conf) - 1), headers="01n" if rng.random() < 0.2 else "01")
     for _ in range(3000 * scale):
         sp = gen_number(rng)
         if rng.random() < 0.5:
